@@ -181,6 +181,16 @@ def _share_fanout(ctx, v, h, variant, pid):
                 seg += 1
                 if seg > 1:
                     problems.append("more than one send per iteration")
+    for p in returning(v.arm(h, variant)):
+        it = [1 for i, ev in ev_branches(p) if ev[1][0] == "discr" and ev[1][1][0] == "call" and ev[1][1][2] == "std::iter::Iterator::next"
+              and ev[1][1][3] and ev[1][1][3][0][0] == "cellload"]
+        if not it:
+            problems.append("a path of the arm returns without fanning the message out (the loop over the sink list is skipped)")
+        # nothing but the list load may decide anything before the loop is entered
+        first_it = min([i for i, ev in ev_branches(p) if ev[1][0] == "discr" and ev[1][1][0] == "call" and ev[1][1][2] == "std::iter::Iterator::next"] + [10 ** 9])
+        pre = [a for (i, a, ev) in guards_before(p, first_it) if not (a[0] == "discr" and a[1] == ("param", h, 2))]
+        if pre:
+            problems.append("the fan-out is conditional on %s" % (pre[0][0],))
     ok = not problems and n > 0
     ctx.ob("REL-fanout", v.key(h, variant, "REL-fanout"), ok,
            "the incoming message is cloned to every element of the sink list" if ok else "; ".join(sorted(set(problems))[:3]), v.loc(h))
@@ -1917,6 +1927,10 @@ def transfer_lemmas(ctx, v):
             probs.append("skip counter does not start at 0")
         ctx.ob("REL-xor", v.key(h, "Data", "REL-xor", "skip-transfer"), not probs and kinds == {"skip", "pass"},
                "UP.D: while skipped < max count and re-request, afterwards forward the datum unchanged" if not probs else "; ".join(sorted(set(probs))), v.loc(h))
+    # every cell the transfer function reads or writes is per subscription (allocated in ROOT's Handshake arm)
+    bad = sorted(str(c.name) for c in v.op.cells.values() if c.scope not in ("SUBSCRIPTION", "DELIVERY"))
+    ctx.ob("SCP-sub", "%s:SCP-sub:state-per-subscription" % v.name, not bad,
+           "all %d cells are allocated per subscription" % len(v.op.cells) if not bad else "state shared between subscriptions: %s" % bad, v.loc(h))
     # relay arms and completion rule shared by all five
     lemma_rel_one(ctx, v, h, "Terminate", "SINK", "Terminate", "none", what="completes-with-upstream")
     lemma_rel_one(ctx, v, h, "Error", "SINK", "Error", "in", what="error-relayed")
@@ -2200,8 +2214,12 @@ def demand_lemmas(ctx, v):
             dec = {}
             for (_, a, _) in guards_before(p, len(p.events)):
                 if a[0] == "discr" and a[1][0] == "cellload":
-                    dec[base_key(a[1][1])] = (a[2] == 1)
-            if inner_k and dec.get(inner_k[0]) is True:
+                    dec.setdefault(base_key(a[1][1]), a[2] == 1)
+                if a[0] == "opt" and a[1][0] == "cellload":
+                    dec.setdefault(base_key(a[1][1]), a[2] == "some")
+            if inner_k and dec.get(inner_k[0]) is None:
+                probs.append("a Pull path does not consult the inner cell first (it decides on %s)" % ("the outer cell" if dec else "nothing"))
+            elif inner_k and dec.get(inner_k[0]) is True:
                 kinds.add("inner")
                 if tgt != inner_k or len(sig) != 1:
                     probs.append("active inner: pull goes to %d targets" % len(sig))
@@ -2213,6 +2231,8 @@ def demand_lemmas(ctx, v):
                 kinds.add("none")
                 if sig:
                     probs.append("both levels gone but something is sent")
+                if not (dec.get(inner_k[0]) is False and outer_k and dec.get(outer_k[0]) is False):
+                    probs.append("a Pull is dropped although not both levels were seen to be gone")
         ctx.ob("REL-xor", v.key(d, "Pull", "REL-xor", "pull-routing"), not probs and kinds == {"inner", "outer", "none"},
                "a Pull goes to the active inner if there is one, else to the outer, else nowhere" if not probs else "; ".join(sorted(set(probs))), v.loc(d))
         # inner greeting: store then exactly one pull to that talkback
@@ -3793,3 +3813,163 @@ def C06(ctx, model, tier, models):
             seen.add(f)
     ctx.ob("CEN-H", "pipeline-stages", seen == {"map", "filter", "scan", "take", "skip", "concat", "flatten", "from_iter", "for_each"}, "stages analysed: %s" % sorted(seen))
     ctx.floor("REL-1:1", 20)
+
+
+# ============================================================================= EQV-sibling (thorough tier cross-check)
+
+def sibling_signature(v, bid, var):
+    """Abstract shape of an arm: per path the sequence of (effect kind, receiver class, variant, payload kind / op)."""
+    out = set()
+    for p in v.arm(bid, var):
+        toks = []
+        for ev in p.events:
+            if ev[0] == "eff":
+                e = ev[1]
+                if e.tracing or not effect_visible(v.P, e):
+                    continue
+                if e.kind == "send":
+                    toks.append(("send", v.cls_of(e)[0], e.variant, payload_kind(v, bid, var, e.payload)))
+                elif e.kind == "atomic":
+                    toks.append(("atomic", e.op))
+                elif e.kind == "cell":
+                    toks.append(("cell", e.op))
+                elif e.kind == "panic":
+                    if not e.pk.startswith("assert"):
+                        toks.append(("panic", e.pk))
+                else:
+                    toks.append((e.kind,))
+            elif ev[0] == "br":
+                a = norm_pred(ev[1], ev[2])
+                toks.append(("br", a[0], a[3] if a[0] == "cmp" else a[2]))
+        out.add((tuple(toks), p.end))
+    return out
+
+
+def eqv_sibling(ctx, model):
+    vs = {v.family: v for v in views(model) if v.cls == "unary"}
+    groups = [
+        ("DOWN", [("map", "scan"), ("filter", "skip")], VARIANTS),
+        ("UP", [("map", "filter"), ("map", "scan"), ("map", "skip"), ("map", "take")], ["Error", "Terminate", "Pull"]),
+    ]
+    for role, pairs, arms in groups:
+        for a, b in pairs:
+            if a not in vs or b not in vs:
+                continue
+            va, vb = vs[a], vs[b]
+            ha, hb = va.by_role(role)[0], vb.by_role(role)[0]
+            for var in arms:
+                same = sibling_signature(va, ha, var) == sibling_signature(vb, hb, var)
+                ctx.ob("EQV-sibling", "%s~%s:%s.%s:EQV-sibling" % (a, b, role, VSHORT[var]), same,
+                       "%s and %s agree on their %s.%s arm" % (a, b, role, VSHORT[var]) if same else
+                       "%s and %s implement the same relay differently in %s.%s" % (a, b, role, VSHORT[var]), va.loc(ha))
+
+
+_c07_fn = REGISTRY["C07"]["fn"]
+def _C07_with_siblings(ctx, model, tier, models):
+    _c07_fn(ctx, model, tier, models)
+    if tier == "thorough":
+        eqv_sibling(ctx, model)
+REGISTRY["C07"]["fn"] = _C07_with_siblings
+
+_c04_fn = REGISTRY["C04"]["fn"]
+def _C04_with_siblings(ctx, model, tier, models):
+    _c04_fn(ctx, model, tier, models)
+    if tier == "thorough":
+        eqv_sibling(ctx, model)
+REGISTRY["C04"]["fn"] = _C04_with_siblings
+
+
+# ============================================================================= additions after the first round of seeded changes
+
+def _merge_over_flag(ctx, v):
+    """The over-flag that the subscribe loop and the late-greeter arm consult is raised, before anything is sent,
+    by the talkback on Error and on Terminate and by a member's Error arm."""
+    r = v.root
+    flag = set()
+    for p in v.arm(r, "Handshake"):
+        for (_, a, _) in guards_before(p, len(p.events)):
+            if a[0] == "bool" and a[1][0] == "aload":
+                flag.add(cell_key(a[1][1]))
+    probs = []
+    if len(flag) != 1:
+        probs.append("the subscribe loop consults %d flags" % len(flag))
+    else:
+        fk = list(flag)[0]
+        places = [(d, var) for d in v.by_role("DOWN") for var in ("Error", "Terminate")] + [(h, "Error") for h in v.by_role("UP")]
+        for (b, var) in places:
+            for p in complete(v.arm(b, var)):
+                st = [i for i, e in ev_effects(p) if e.kind == "atomic" and e.op == "store" and cell_key(e.cell) == fk and e.operand[3] == 1]
+                sn = [i for i, e in ev_effects(p) if e.kind == "send"]
+                if not st or (sn and st[0] > sn[0]):
+                    probs.append("%s.%s does not raise the over-flag before its first send" % (v.label(b), VSHORT[var]))
+    ctx.ob("ORD-flag-relay", "%s:ORD-flag-relay:over-flag-raised-on-every-end" % v.name, not probs,
+           "the over-flag is raised first on sink Error, sink Terminate and member Error" if not probs else "; ".join(sorted(set(probs))[:3]), v.loc(r))
+
+
+def _combine_nonh_guards(ctx, v):
+    """C01 (b) for combine: Data to the sink only behind n_data == 0 and Terminate only behind the once-guard on n_end, both counters
+    starting at N = number of members and decremented at most once per member - so every member has greeted before."""
+    N = len(v.by_role("UP"))
+    for h in v.by_role("UP"):
+        probs = []
+        for var in ("Data", "Error", "Terminate"):
+            for p in v.arm(h, var):
+                for s in send_sig(v, h, var, p):
+                    if s[0] != "SINK":
+                        continue
+                    if s[1] == "Data":
+                        dec = []
+                        for (i, a, ev) in guards_before(p, s[4]):
+                            if a[0] == "cmp" and a[3] == "==" and a[4] == 0 and a[2] is None and a[1] is not None:
+                                ob = obs_of_counter(a[1])
+                                if ob and all(o[0] in ("post", "cur") for o in ob):
+                                    dec.append(ob)
+                        if not dec:
+                            probs.append("Data is sent without n_data == 0")
+                        else:
+                            ck = dec[0][0][1]
+                            ws = cell_writes(v, ck[0])
+                            if cell_init(v, ck[0]) != N or not all(e.kind == "atomic" and e.op == "fetch_sub" and e.operand[3] == 1 for e, _ in ws):
+                                probs.append("n_data does not count down from N by unit steps")
+                    elif s[1] in ("Terminate", "Error"):
+                        g = grd_once(v, p, s[4])
+                        if not (g and g["step"] == -1 and g["init"] == N and g["post_offset"] == 0 and g["bound"] is None and g["uniform"]):
+                            probs.append("%s is sent without the once-guard post(n_end) == 0 on a counter from N" % s[1])
+                        elif len({(e.site) for e, b in cell_writes(v, g["cell"][0])}) != 0:
+                            # every decrement site lies in a member's Error/Terminate arm (one end per member, A2)
+                            for e, b in cell_writes(v, g["cell"][0]):
+                                if not (v.op.roles.get(b) == "UP" and set(site_arms(v, b, e.site)) <= {"Error", "Terminate"}):
+                                    probs.append("the end counter is written outside the members' end arms")
+        ctx.ob("GRD-once", v.key(h, None, "GRD-once", "nothing-before-all-greeted"), not probs,
+               "data needs every member's first value and completion every member's end: both imply every member greeted" if not probs else "; ".join(sorted(set(probs))[:3]), v.loc(h))
+
+
+def _merge_nonh_guards(ctx, v):
+    """C01 (b) for merge: Terminate to the sink only behind post(end_count) == n, the counter being incremented only in member T arms."""
+    for h in v.by_role("UP"):
+        probs = []
+        for p in v.arm(h, "Terminate"):
+            for s in path_terminals(v, h, "Terminate", p):
+                g = grd_once(v, p, s[4])
+                if not (g and g["step"] == 1 and g["init"] == 0 and g["post_offset"] == 0 and g["bound"] is not None and _is_member_count(v, g["bound"]) and g["uniform"]):
+                    probs.append("completion not behind post(end_count) == n")
+                else:
+                    for e, b in cell_writes(v, g["cell"][0]):
+                        if not (v.op.roles.get(b) == "UP" and site_arms(v, b, e.site) == ["Terminate"]):
+                            probs.append("end_count is written outside the members' Terminate arms")
+        ctx.ob("GRD-once", v.key(h, "Terminate", "GRD-once", "completion-implies-all-greeted"), not probs,
+               "completion needs n member completions, each after that member's greeting (A1)" if not probs else "; ".join(sorted(set(probs))), v.loc(h))
+
+
+def _wrap(pid, extra):
+    base = REGISTRY[pid]["fn"]
+    def fn(ctx, model, tier, models):
+        base(ctx, model, tier, models)
+        for v in views(model):
+            extra(ctx, v)
+    REGISTRY[pid]["fn"] = fn
+
+_wrap("C01", lambda ctx, v: (_combine_nonh_guards(ctx, v) if v.family == "combine" else (_merge_nonh_guards(ctx, v) if v.family == "merge" else None)))
+_wrap("C04", lambda ctx, v: _merge_over_flag(ctx, v) if v.family == "merge" else None)
+_wrap("C08", lambda ctx, v: _merge_over_flag(ctx, v) if v.family == "merge" else None)
+_wrap("C03", lambda ctx, v: _merge_over_flag(ctx, v) if v.family == "merge" else None)
